@@ -24,6 +24,7 @@ pub struct SubframeInfo {
     pub escapes: u32,
     pub max_rice: u32,
     pub bits: u64,
+    pub range_ok: bool,
 }
 
 #[derive(Debug, Clone)]
@@ -32,6 +33,12 @@ pub struct FrameInfo {
     pub len: usize,
     /// header length including the CRC-8 byte
     pub hdr_len: usize,
+    /// the coded frame/sample number uses the minimal number of bytes
+    pub number_minimal: bool,
+    /// reserved header bits and byte-alignment padding bits are all zero
+    pub pad_zero: bool,
+    /// every residual, subframe sample and output sample is within its legal range
+    pub range_ok: bool,
     pub variable: bool,
     pub number: u64,
     pub bs: u32,
@@ -392,16 +399,16 @@ pub fn decode_frame(d: &[u8], off: usize, info: Option<&StreamInfo>, cfg: &Cfg) 
         }
         num = (num << 6) | (c & 0x3F) as u64;
     }
+    let minimal = match extra {
+        0 => true,
+        1 => num >= 0x80,
+        2 => num >= 0x800,
+        3 => num >= 0x1_0000,
+        4 => num >= 0x20_0000,
+        5 => num >= 0x400_0000,
+        _ => num >= 0x8000_0000,
+    };
     if cfg.strict {
-        let minimal = match extra {
-            0 => true,
-            1 => num >= 0x80,
-            2 => num >= 0x800,
-            3 => num >= 0x1_0000,
-            4 => num >= 0x20_0000,
-            5 => num >= 0x400_0000,
-            _ => num >= 0x8000_0000,
-        };
         if !minimal {
             return Err("over-long coded number".into());
         }
@@ -475,8 +482,12 @@ pub fn decode_frame(d: &[u8], off: usize, info: Option<&StreamInfo>, cfg: &Cfg) 
         chans.push(s);
     }
     // padding
+    let mut pad_zero = res == 0 && res2 == 0;
     while !b.aligned() {
         let z = b.bit()?;
+        if z != 0 {
+            pad_zero = false;
+        }
         if cfg.strict && z != 0 {
             return Err("non-zero frame padding".into());
         }
@@ -491,21 +502,21 @@ pub fn decode_frame(d: &[u8], off: usize, info: Option<&StreamInfo>, cfg: &Cfg) 
     let out: Vec<Vec<i64>> = match chan_code {
         8 => {
             let l = chans[0].clone();
-            let r: Vec<i64> = l.iter().zip(&chans[1]).map(|(l, s)| l - s).collect();
+            let r: Vec<i64> = l.iter().zip(&chans[1]).map(|(l, s)| l.wrapping_sub(*s)).collect();
             vec![l, r]
         }
         9 => {
             let r = chans[1].clone();
-            let l: Vec<i64> = r.iter().zip(&chans[0]).map(|(r, s)| r + s).collect();
+            let l: Vec<i64> = r.iter().zip(&chans[0]).map(|(r, s)| r.wrapping_add(*s)).collect();
             vec![l, r]
         }
         10 => {
             let mut l = vec![];
             let mut r = vec![];
             for (m, s) in chans[0].iter().zip(&chans[1]) {
-                let m2 = (m << 1) | (s & 1);
-                l.push((m2 + s) >> 1);
-                r.push((m2 - s) >> 1);
+                let m2 = m.wrapping_shl(1) | (s & 1);
+                l.push(m2.wrapping_add(*s) >> 1);
+                r.push(m2.wrapping_sub(*s) >> 1);
             }
             vec![l, r]
         }
@@ -514,10 +525,12 @@ pub fn decode_frame(d: &[u8], off: usize, info: Option<&StreamInfo>, cfg: &Cfg) 
     let lo = -(1i64 << (bps - 1));
     let hi = (1i64 << (bps - 1)) - 1;
     let mut out32 = vec![];
+    let mut out_range_ok = true;
     for ch in out {
         let mut v = Vec::with_capacity(ch.len());
         for s in ch {
             if s < lo || s > hi {
+                out_range_ok = false;
                 if cfg.strict {
                     return Err(format!("decoded sample {} outside {}-bit range", s, bps));
                 }
@@ -531,6 +544,9 @@ pub fn decode_frame(d: &[u8], off: usize, info: Option<&StreamInfo>, cfg: &Cfg) 
             offset: off,
             len,
             hdr_len: hdr_end + 1 - off,
+            number_minimal: minimal,
+            pad_zero,
+            range_ok: out_range_ok && subs.iter().all(|s| s.range_ok),
             variable,
             number: num,
             bs,
@@ -560,7 +576,7 @@ fn decode_subframe(b: &mut Bits, bs: usize, bps: u32, cfg: &Cfg) -> R<(SubframeI
         return Err("wasted bits >= depth".into());
     }
     let eb = bps - wasted;
-    let mut si = SubframeInfo { kind: "", order: 0, wasted, method: 0, part_order: 0, escapes: 0, max_rice: 0, bits: 0 };
+    let mut si = SubframeInfo { kind: "", order: 0, wasted, method: 0, part_order: 0, escapes: 0, max_rice: 0, bits: 0, range_ok: true };
     let mut s: Vec<i64> = Vec::with_capacity(bs);
     match ty {
         0 => {
@@ -596,9 +612,9 @@ fn decode_subframe(b: &mut Bits, bs: usize, bps: u32, cfg: &Cfg) -> R<(SubframeI
                 let n = s.len();
                 let mut p: i64 = 0;
                 for (j, c) in coef.iter().enumerate() {
-                    p += c * s[n - 1 - j];
+                    p = p.wrapping_add(c.wrapping_mul(s[n - 1 - j]));
                 }
-                s.push(p + r);
+                s.push(p.wrapping_add(r));
             }
         }
         32..=63 => {
@@ -631,26 +647,32 @@ fn decode_subframe(b: &mut Bits, bs: usize, bps: u32, cfg: &Cfg) -> R<(SubframeI
                 for (j, c) in coef.iter().enumerate() {
                     p += (*c as i128) * (s[n - 1 - j] as i128);
                 }
-                if cfg.strict && (p > i64::MAX as i128 || p < i64::MIN as i128) {
-                    return Err("prediction overflows 64 bits".into());
+                if p > i64::MAX as i128 || p < i64::MIN as i128 {
+                    si.range_ok = false;
+                    if cfg.strict {
+                        return Err("prediction overflows 64 bits".into());
+                    }
                 }
-                s.push(((p >> shift) as i64) + r);
+                s.push(((p >> shift) as i64).wrapping_add(r));
             }
         }
         _ => return Err(format!("reserved subframe type {:06b}", ty)),
     }
-    if cfg.strict {
+    {
         let lo = -(1i64 << (eb - 1));
         let hi = (1i64 << (eb - 1)) - 1;
         for v in &s {
             if *v < lo || *v > hi {
-                return Err(format!("subframe sample {} outside {}-bit range", v, eb));
+                si.range_ok = false;
+                if cfg.strict {
+                    return Err(format!("subframe sample {} outside {}-bit range", v, eb));
+                }
             }
         }
     }
     if wasted > 0 {
         for v in s.iter_mut() {
-            *v <<= wasted;
+            *v = v.wrapping_shl(wasted);
         }
     }
     Ok((si, s))
@@ -685,7 +707,7 @@ fn residuals(b: &mut Bits, bs: usize, order: usize, si: &mut SubframeInfo, cfg: 
             let w = b.u(5)? as u32;
             for _ in 0..n {
                 let v = b.s(w)?;
-                check_res(v, cfg)?;
+                check_res(v, cfg, si)?;
                 out.push(v);
             }
         } else {
@@ -695,7 +717,7 @@ fn residuals(b: &mut Bits, bs: usize, order: usize, si: &mut SubframeInfo, cfg: 
                 let r = b.u(k)?;
                 let zz = (q << k) | r;
                 let v = if zz & 1 == 1 { -((zz >> 1) as i64) - 1 } else { (zz >> 1) as i64 };
-                check_res(v, cfg)?;
+                check_res(v, cfg, si)?;
                 out.push(v);
             }
         }
@@ -703,9 +725,12 @@ fn residuals(b: &mut Bits, bs: usize, order: usize, si: &mut SubframeInfo, cfg: 
     Ok(out)
 }
 
-fn check_res(v: i64, cfg: &Cfg) -> R<()> {
-    if cfg.strict && (v <= i32::MIN as i64 || v > i32::MAX as i64) {
-        return Err(format!("residual {} outside (i32::MIN, i32::MAX]", v));
+fn check_res(v: i64, cfg: &Cfg, si: &mut SubframeInfo) -> R<()> {
+    if v <= i32::MIN as i64 || v > i32::MAX as i64 {
+        si.range_ok = false;
+        if cfg.strict {
+            return Err(format!("residual {} outside (i32::MIN, i32::MAX]", v));
+        }
     }
     Ok(())
 }
